@@ -142,6 +142,13 @@ func All(seed int64) []Input {
 			add("font-indep-"+c, "type1", data)
 		}
 	}
+	// a font without an /Encoding entry between fonts that use StandardEncoding (read before and after it)
+	if data, err := indep.WriteFont(spec, indep.Layout{Cont: "pfa", LenIV: 4, Names: "RD", Enc: "none"}); err == nil {
+		add("font-indep-no-encoding", "type1", data)
+	}
+	if data, err := indep.WriteFont(spec, indep.Layout{Cont: "clear", LenIV: 4, Names: "bar", Enc: "std"}); err == nil {
+		add("font-indep-clear-bar", "type1", data)
+	}
 	// the other line-end conventions (classic Mac: CR, DOS: CR LF), in the hexadecimal and in the binary form
 	for _, c := range []string{"pfa", "bin"} {
 		for _, el := range []string{"cr", "crlf"} {
